@@ -15,6 +15,7 @@ import (
 	"os"
 	"strings"
 	"sync"
+	"sync/atomic"
 	"time"
 
 	"github.com/opencontainers/go-digest"
@@ -321,6 +322,7 @@ type l2case struct {
 	Redirect  bool
 	Inline    string // "", right, wrong
 	Conc      int64
+	Rewind    string // "", after-end, mid-stream, after-end-onto-changed-source: the returned reader is rewound (Seek to the start) and read again
 }
 
 func level2() {
@@ -337,7 +339,10 @@ func level2() {
 		}(i)
 	}
 	wg.Wait()
+	run.Count("registry_rewinds", int(rewinds.Load()))
 }
+
+var rewinds atomic.Int64
 
 func l2one(i int) {
 	rng := ev.Rand(fmt.Sprintf("c01/l2/%d", i))
@@ -367,6 +372,9 @@ func l2one(i int) {
 	}
 	if rng.Intn(8) == 0 {
 		c.Inline = []string{"right", "wrong"}[rng.Intn(2)]
+	}
+	if i%3 == 1 && c.Inline == "" {
+		c.Rewind = []string{"after-end", "mid-stream", "after-end-onto-changed-source"}[(i/3)%3]
 	}
 	w := modelreg.NewWorld()
 	defer w.Close()
@@ -443,6 +451,7 @@ func l2one(i int) {
 		expired bool // the harness' context had expired when the read returned
 	}
 	ch := make(chan res, 1)
+	second := make(chan *res, 1)
 	go func() {
 		defer func() {
 			if p := recover(); p != nil {
@@ -455,8 +464,38 @@ func l2one(i int) {
 			return
 		}
 		defer r.Close()
-		got, err := drain(r, []int{[]int{1, 7, 512, 32768}[rng.Intn(4)]})
-		ch <- res{got, err, ctx.Err() != nil}
+		bufs := []int{[]int{1, 7, 512, 32768}[rng.Intn(4)]}
+		if c.Rewind == "mid-stream" && c.Len > 1 {
+			// part of the stream is consumed, then the reader is rewound: what follows is one complete read
+			part := make([]byte, 1+rng.Intn(c.Len))
+			_, _ = io.ReadFull(r, part)
+			if _, serr := r.Seek(0, io.SeekStart); serr != nil {
+				ch <- res{nil, fmt.Errorf("rewind refused: %w", serr), ctx.Err() != nil}
+				return
+			}
+			rewinds.Add(1)
+		}
+		got, err := drain(r, bufs)
+		first := res{got, err, ctx.Err() != nil}
+		if strings.HasPrefix(c.Rewind, "after-end") && err == nil {
+			if c.Rewind == "after-end-onto-changed-source" && len(sv.data) > 0 {
+				// the registry serves other bytes of the same length under the name from now on
+				other := bytes.Clone(sv.data)
+				other[len(other)/2] ^= 0x20
+				w.Lock()
+				h.Repo("proj/app").Blobs[dg] = other
+				if cdn != nil {
+					cdn.Repo("proj/app").Blobs[dg] = other
+				}
+				w.Unlock()
+			}
+			if _, serr := r.Seek(0, io.SeekStart); serr == nil {
+				rewinds.Add(1)
+				got2, err2 := drain(r, bufs)
+				second <- &res{got2, err2, ctx.Err() != nil}
+			}
+		}
+		ch <- first
 	}()
 	var out res
 	select {
@@ -499,7 +538,24 @@ func l2one(i int) {
 			verdict(level, what, d, content, out.got, out.err, wit)
 		}
 	}
-	run.Distinct(fmt.Sprintf("registry/%s/cl=%s/cuts=%d/range=%s/redir=%t/inline=%s/size=%t", strings.SplitN(sv.kind, "@", 2)[0], c.CL, min(len(c.Cuts), 3), c.Range, c.Redirect, c.Inline, c.SizeKnown))
+	// the pass after a rewind: only the law (a clean end needs matching bytes); whether the second pass completes
+	// over a lossy transport is not demanded
+	select {
+	case s2 := <-second:
+		run.Count("registry_second_passes_after_rewind", 1)
+		if s2.err != nil || s2.expired {
+			run.Eval(1)
+			run.Count("reads_ended_in_error", 1)
+		} else {
+			k2 := sv.kind
+			if c.Rewind == "after-end-onto-changed-source" {
+				k2 = "source-changed-between-the-passes"
+			}
+			verdict("registry-after-rewind", k2, d, content, s2.got, nil, wit)
+		}
+	default:
+	}
+	run.Distinct(fmt.Sprintf("registry/%s/cl=%s/cuts=%d/range=%s/redir=%t/inline=%s/size=%t/rewind=%s", strings.SplitN(sv.kind, "@", 2)[0], c.CL, min(len(c.Cuts), 3), c.Range, c.Redirect, c.Inline, c.SizeKnown, c.Rewind))
 	if i < 3 {
 		run.Sample(map[string]any{"level": "registry", "case": c, "err": fmt.Sprint(out.err), "received": len(out.got)})
 	}
